@@ -14,6 +14,12 @@ pub fn animate_impl(input: TokenStream) -> TokenStream {
         .into()
 }
 
+/// Verification hook: in-process entry to the `derive(Animate)` expansion.
+#[cfg(feature = "verif-hooks")]
+pub fn verif_expand_animate(input: TokenStream2) -> Result<TokenStream2> {
+    expand_animate(parse2::<DeriveInput>(input)?)
+}
+
 fn expand_animate(input: DeriveInput) -> Result<TokenStream2> {
     let DeriveInput {
         ident: name,
